@@ -75,7 +75,9 @@ def scn_compose(ctx):
                 s_ = 0.5
             ex = ex.with_retry(max_attempts=2, sleep=s_, exception_base=ScriptErr)
         elif ln == "poll":
-            def pfn(ds, k=k):
+            def pfn(ds, k=k, li=li):
+                if ds and p.get("poll_raises") and nsub == 1:
+                    script("poll%d" % li, ds[0].result[0])  # may raise: every future shown fails with that very object
                 for d in ds:
                     d.yield_result((d.result[0], d.result[1] + k))
             ex = ex.with_poll(pfn, default_interval=3.0)
@@ -154,6 +156,10 @@ def scn_compose(ctx):
                 s2 = take("flat%d" % li)
                 return ("value", (o[1][0], o[1][1] + k)) if s2[0] == "value" else s2
             if ln == "poll" and o[0] == "value":
+                if p.get("poll_raises") and nsub == 1:
+                    s2 = take("poll%d" % li)
+                    if s2[0] == "error":
+                        return s2
                 return ("value", (o[1][0], o[1][1] + k))
             return o
 
@@ -216,7 +222,9 @@ def plan(tier, seed):
         h = l1 in HEAVY
         items.append(dict(scenario=C, params=dict(layers=[l1], base="sync", script_len=1 if h else 2, argstyles=not h), bounds=dict(P=1 if q else 2)))
         if h:
-            items.append(dict(scenario=C, params=dict(layers=[l1], base="sync", script_len=1, nsub=1, threads=1), bounds=dict(P=0)))
+            items.append(dict(scenario=C, params=dict(layers=[l1], base="sync", script_len=1, nsub=1, threads=1, poll_raises=True), bounds=dict(P=0)))
+    for l2 in ("map", "retry", "timeout", "throttle"):
+        items.append(dict(scenario=C, params=dict(layers=["poll", l2], base="sync", script_len=1, nsub=1, threads=1, poll_raises=True), bounds=dict(P=0)))
         items.append(dict(scenario=C, params=dict(layers=[l1], base="pool", script_len=1, nsub=1 if (q and l1 in ("retry", "timeout")) else 2, threads=1 if (q and l1 in ("retry", "timeout")) else 2, argstyles=False), bounds=dict(P=0)))
     items.append(dict(scenario=C, params=dict(layers=["retry"], base="sync", script_len=1, nsub=1, threads=1, symbolic_sleep=True), bounds=dict(P=0 if q else 1)))
     for l1, l2 in itertools.product(LAYERS, LAYERS):
